@@ -107,6 +107,16 @@ def _unicode_hostile():
 UNICODE_HOSTILE = _unicode_hostile()
 HOSTILE_D = dict(HOSTILE + UNICODE_HOSTILE)
 
+# ---- k same-named exports into one directory: the unique-name search must hand out k different files
+# names over an alphabet with every regex / glob / printf metacharacter (one each, and in combination)
+META_NAMES = ["Im0", "Im+0", "a*b", "x?y", "a|b", "Im(0)", "a.b", "[ab]", "a{2}", "a^b$", "a%sb", "a%d", "a\\b", "^a", "a$", "(", ")", "[", "]", "a{", "}",
+              "*", "+", "?", ".", "%", "|", "Im0.0", "Im0.", "a b", "a~b", "a!b", "a-b", "[!a]", "\\d", "(?i)im", "a+*?", "..."]
+REPEAT_KINDS = ["bmp8gray", "jpg", "raw"]
+# which of NAME.ext / NAME.0.ext / NAME.1.ext are user files that already lie in the output directory
+PRE_SETS = [(), ("",), ("", ".0"), ("", ".0", ".1"), (".0",), (".1",), ("", ".1"), (".0", ".1")]
+
+
+
 SLOTS = [
     "simple-encoding",  # /Encoding /h of a Type1 font
     "type0-encoding",  # /Encoding /h of a Type0 font (predefined CMap name)
@@ -125,7 +135,7 @@ IMAGE_SLOTS = ("image-name", "image-in-form", "form-name")
 OTYPES = ["text", "xml", "html"]
 
 BOUNDS = {
-    "quick": "11 slots x 19 hostile strings (image slots x 7 export kinds) x output type text; + xml/html for image-name; + inline image and benign baselines; + 17 late-sentinel cases (files appearing after the ImageWriter exists); + 6 CMap slots x 5 names with CMAP_PATH unset and decoys in the working directory; + CMAP_PATH in {'', '.', relative dir} x 5 slots x 6 names; + 10 symlink-inside-resource-dir cases; + %d names built from the %d code points whose normal/case forms contain path syntax x 4 slots; + 6 output-dir spellings (through a symlink + '..', relative, './', trailing slash) x 2 names x 2 kinds x existing/fresh" % (len(UNICODE_HOSTILE), len(COMPAT)),
+    "quick": "11 slots x 19 hostile strings (image slots x 7 export kinds) x output type text; + xml/html for image-name; + inline image and benign baselines; + 17 late-sentinel cases (files appearing after the ImageWriter exists); + 6 CMap slots x 5 names with CMAP_PATH unset and decoys in the working directory; + CMAP_PATH in {'', '.', relative dir} x 5 slots x 6 names; + 10 symlink-inside-resource-dir cases; + %d names built from the %d code points whose normal/case forms contain path syntax x 4 slots; + %d names over the regex/glob/printf metacharacters x 6 sets of pre-existing NAME/NAME.0/NAME.1 files x 3 same-named exports (3 pages); + image names {., .., empty, x} x {BitsPerComponent, Width, Height} x 9 non-integer values (names, strings, real, negative, null, array) through the raw export; + 6 output-dir spellings (through a symlink + '..', relative, './', trailing slash) x 2 names x 2 kinds x existing/fresh" % (len(UNICODE_HOSTILE), len(COMPAT), len(META_NAMES)),
     "thorough": "quick + all output types for every image case + all unordered slot pairs x 4x4 traversal strings",
 }
 
@@ -149,6 +159,7 @@ META = {
         "symbolic links inside $CMAP_PATH that point out of it count as leaving the resource directory (the realpath containment of the implementation rejects them); none are planted inside the repository's own cmap directory",
         "the chosen output directory is os.path.realpath(output_dir) evaluated in the caller's working directory before anything is created",
         "Unicode names: the code points whose NFC/NFD/NFKC/NFKD/casefold/lower/upper form contains '/', '\\', '.' or NUL (enumerated at import with the interpreter's unicodedata) in '..c x', 'cc/ x', '../../x' and absolute arrangements; decoys and sentinels are planted for the normalised spellings too; other confusables (e.g. U+2215 DIVISION SLASH, which no normal form maps to '/') are not generated",
+        "uniqueness: k = 3 (thorough 3..4) same-named images on k pages with different pixels, names over the metacharacter alphabet, with each subset of {NAME.ext, NAME.0.ext, NAME.1.ext} pre-existing; judged: pre-existing files byte-identical, no path opened for writing twice in one run, k new files",
         "late-sentinel cases assemble the extract_text_to_fp pipeline from the public classes (ImageWriter, converter, PDFPageInterpreter) to drop files between writer construction and export",
         "with CMAP_PATH unset, reads under the documented default /usr/share/pdfminer would be allowed (the directory does not exist here)",
         "inline image names are interpreter-generated (id()), not document-controlled; one inline case per export kind checks they stay inside the output dir",
@@ -246,7 +257,28 @@ def _cidfont(reg: bytes = b"Adobe", ordering: bytes = b"Identity", base: str = "
             "DW": 1000}
 
 
-def build_pdf(slots: List[Tuple[str, str]], kind: str, inline: bool = False) -> bytes:
+def _field_value(spec, root: str) -> Any:
+    """('name', s) | ('str', s) | ('real', x) | ('int', n) | ('null',) | ('list', n) -> pdfgen value (ROOT token materialised)."""
+    k = spec[0]
+    if k == "name":
+        return Name(str(spec[1]).replace(ROOT_TOKEN, root).encode("utf-8"))
+    if k == "str":
+        return str(spec[1]).replace(ROOT_TOKEN, root).encode("utf-8")
+    if k in ("real", "int"):
+        return spec[1]
+    if k == "null":
+        return None
+    if k == "list":
+        return [spec[1]]
+    raise ValueError(spec)
+
+
+# other document-controlled entries of the image dictionary that end up in the exported file's name
+IMG_FIELDS = ["BitsPerComponent", "Width", "Height"]
+IMG_FIELD_VALUES = [("name", "x"), ("name", "../x"), ("name", ROOT_TOKEN + "/abs/x"), ("str", "/../x"), ("str", "../x"), ("real", 4.5), ("int", -4), ("null",), ("list", 4)]
+
+
+def build_pdf(slots: List[Tuple[str, str]], kind: str, inline: bool = False, img_field: Optional[Tuple[str, Any]] = None) -> bytes:
     """One page using every listed (slot, hostile string); strings are already materialised."""
     d = Doc()
     fonts: Dict[str, Any] = {"F1": d.add({"Type": N("Font"), "Subtype": N("Type1"), "BaseFont": N("Helvetica")})}
@@ -288,7 +320,10 @@ def build_pdf(slots: List[Tuple[str, str]], kind: str, inline: bool = False) -> 
                       "FontDescriptor": {"Type": N("FontDescriptor"), "FontName": _nm(h), "Flags": 32, "FontBBox": [0, -200, 1000, 800],
                                          "Ascent": 800, "Descent": -200, "ItalicAngle": 0, "CapHeight": 700, "StemV": 80}}, b"(A)")
         elif slot == "image-name":
-            xobj[h] = d.add(_image_stream(kind))
+            im_ = _image_stream(kind)
+            if img_field is not None:
+                im_.d[img_field[0]] = img_field[1]
+            xobj[h] = d.add(im_)
             ops.append(b"q 10 0 0 10 100 100 cm " + ser_name(h.encode("utf-8")) + b" Do Q")
         elif slot in ("form-name", "image-in-form"):
             fname, iname = (h, "Im0") if slot == "form-name" else ("F0", h)
@@ -321,6 +356,29 @@ def build_pdf(slots: List[Tuple[str, str]], kind: str, inline: bool = False) -> 
     d.set(cat, {"Type": N("Catalog"), "Pages": pages})
     d.set(pages, {"Type": N("Pages"), "Kids": [page], "Count": 1})
     d.set(page, {"Type": N("Page"), "Parent": pages, "MediaBox": [0, 0, 612, 792], "Resources": res, "Contents": cref})
+    return d.write(cat)
+
+
+def build_repeat_pdf(name: str, kind: str, k: int) -> bytes:
+    """k pages, each with its own image XObject called ``name`` (different pixels on every page)."""
+    d = Doc()
+    cat, pages = d.reserve(), d.reserve()
+    kids = []
+    for i in range(k):
+        im = _image_stream(kind)
+        if kind == "bmp8gray":
+            im.data = zlib.compress(bytes((i * 16 + j) & 255 for j in range(4)))
+        elif kind == "jpg":
+            im.data = b"\xff\xd8\xff\xe0JFIF-page-%d\xff\xd9" % i
+        elif kind == "raw":
+            im.data = zlib.compress(bytes((0x12 + i, 0x34))).hex().encode() + b">"
+        else:
+            raise ValueError(kind)
+        ref = d.add(im)
+        cref = d.add(Stream({}, b"q 10 0 0 10 100 100 cm " + ser_name(name.encode("utf-8")) + b" Do Q\n"))
+        kids.append(d.add({"Type": N("Page"), "Parent": pages, "MediaBox": [0, 0, 612, 792], "Resources": {"XObject": {name: ref}}, "Contents": cref}))
+    d.set(cat, {"Type": N("Catalog"), "Pages": pages})
+    d.set(pages, {"Type": N("Pages"), "Kids": kids, "Count": k})
     return d.write(cat)
 
 
@@ -539,9 +597,11 @@ def run_case(case: Dict[str, Any]):
     _prewarm(t)
     t.reset()
     os.environ["CMAP_PATH"] = t.cmap
-    slots = [(s, materialise(HOSTILE_D.get(hk, hk) if hk in HOSTILE_D else hk, t)) for s, hk in case["slots"]]
+    slots = [(s, hk[4:] if hk.startswith("lit:") else materialise(HOSTILE_D.get(hk, hk), t)) for s, hk in case["slots"]]
     kind, otype, inline = case["kind"], case["otype"], case.get("inline", False)
-    pdf = build_pdf(slots, kind, inline)
+    repeat = int(case.get("repeat") or 0)
+    pdf = build_repeat_pdf(slots[0][1], kind, repeat) if repeat else build_pdf(
+        slots, kind, inline, (case["img_field"][0], _field_value(tuple(case["img_field"][1]), t.root)) if case.get("img_field") else None)
     cmap_names = [h for s, h in slots if s not in IMAGE_SLOTS and s != "basefont" and s != "simple-encoding"]
     for s, h in slots:
         if s == "registry":
@@ -610,7 +670,13 @@ def run_case(case: Dict[str, Any]):
     # where a purely lexical reading of the caller's path would point (differs from out_real only through symlinks)
     out_lexical = os.path.normpath(os.path.join(chdir_to or os.getcwd(), outdir_arg))
     img_names = [h for s, h in slots if s in ("image-name", "image-in-form")] + (["Im0"] if any(s == "form-name" for s, _ in slots) else [])
-    if not late:
+    if repeat:
+        # exactly the listed user files (named with the sanitised spelling the exporter uses for its candidates)
+        base_nm = re.sub(r"[/\\\0]", "_", img_names[0])
+        for suf in case.get("pre", ()):
+            with open(os.path.join(out_real, base_nm + suf + EXT[kind]), "wb") as f:
+                f.write(b"user file " + suf.encode())
+    elif not late:
         t.plant_sentinels(img_names, EXT[kind], out_real)
     if case.get("fresh_out"):
         shutil.rmtree(out_real)  # output directory does not exist yet: ImageWriter may create it (and only it)
@@ -655,6 +721,7 @@ def run_case(case: Dict[str, Any]):
 
     out_abs = []
     imports = 0
+    written: set = set()
     for ev, args, fn in events:
         if ev in ("open", "os.open"):
             path = args[0]
@@ -670,6 +737,12 @@ def run_case(case: Dict[str, Any]):
             if not writing and ap.endswith((".py", ".pyc")):
                 imports += 1
                 continue
+            if writing:
+                rp_ = os.path.realpath(ap)
+                if rp_ in written:
+                    add("C15/existing-file-overwritten", "never overwrites an existing file", {"opened_for_writing_twice": ap.replace(t.root, ROOT_TOKEN), "via": fn},
+                        "a file created earlier in the same run was opened for writing again (two exports share one file)")
+                written.add(rp_)
             if t.inside(ap, t.lib):
                 cls = "libcmap"
             elif cmap_env == "unset" and t.inside(ap, DEFAULT_CMAP_DIR):
@@ -731,6 +804,11 @@ def run_case(case: Dict[str, Any]):
         elif not t.inside(p_, out_real):
             add("C15/image-name-escapes-output-dir" if not p_.endswith(os.sep) else "C15/mkdir-outside-output-dir", "files created only inside output_dir",
                 {"created": p_.replace(t.root, ROOT_TOKEN)}, "a new file exists outside the output directory after processing")
+    if repeat and exc is None:
+        n_files = len([p_ for p_ in created if not p_.endswith(os.sep) and t.inside(p_, out_real)])
+        if n_files != repeat:
+            add("C15/exports-share-a-file", f"{repeat} exports -> {repeat} new files", {"new_files": sorted(os.path.basename(p_) for p_ in created)},
+                "fewer new files than exported images: one export replaced another")
     outcome = (tuple(out_abs), exc, len(created))
     info = {"events": len(events), "imports": imports, "planted": planted, "created": len(created), "exception": exc, "pdf": pdf}
     return viol, outcome, info
@@ -776,6 +854,18 @@ def _cases(tier: str) -> List[Dict[str, Any]]:
                     if fresh:
                         c["fresh_out"] = True
                     cs.append(c)
+    # image dictionary entries other than the name that flow into the file name (the '.BITS.WxH.img' extension of raw exports)
+    for nm in (".", "..", "", "x"):
+        for fld in IMG_FIELDS:
+            for val in IMG_FIELD_VALUES:
+                for kind in (("raw",) if tier == "quick" else ("raw", "bmp8gray", "jpg")):
+                    cs.append({"slots": [("image-name", "lit:" + nm)], "kind": kind, "otype": "text", "img_field": (fld, val)})
+    # k same-named exports (k pages) into a directory that may already hold NAME.ext / NAME.0.ext / NAME.1.ext
+    for nm in META_NAMES:
+        for kind in (REPEAT_KINDS if tier == "thorough" or nm in ("Im0", "Im+0", "a.b") else REPEAT_KINDS[:1]):
+            for pre in (PRE_SETS if tier == "thorough" else PRE_SETS[:6]):
+                for k in ((3, 4) if tier == "thorough" else (3,)):
+                    cs.append({"slots": [("image-name", "lit:" + nm)], "kind": kind, "otype": "text", "repeat": k, "pre": pre})
     # compatibility characters that a normalisation would turn back into path syntax
     for hk, _ in UNICODE_HOSTILE:
         for slot, kinds in (("image-name", ("bmp1", "jpg")), ("image-in-form", ("bmp8gray",)), ("type0-encoding", ("bmp1",)), ("usecmap-tounicode-simple", ("bmp1",))):
@@ -850,7 +940,9 @@ def replay(case):
     c = {"slots": [tuple(x) for x in case["slots"]], "kind": case["kind"], "otype": case["otype"], "inline": case.get("inline", False),
          "fresh_out": case.get("fresh_out", False), "no_export": case.get("no_export", False),
          "late_sentinels": case.get("late_sentinels", False), "cwd_mode": case.get("cwd_mode", False),
-         "cmap_env": case.get("cmap_env"), "symlinks": case.get("symlinks"), "out_spelling": case.get("out_spelling")}
+         "cmap_env": case.get("cmap_env"), "symlinks": case.get("symlinks"), "out_spelling": case.get("out_spelling"),
+         "repeat": case.get("repeat"), "pre": tuple(case.get("pre") or ()),
+         "img_field": (case["img_field"][0], tuple(case["img_field"][1])) if case.get("img_field") else None}
     try:
         viol, _, _ = run_case(c)
     finally:
